@@ -35,8 +35,8 @@ KEYFORMS = ("name", "dotted", "tuple")
 MOVABLE = ("F", "C", "A", "S", "B")
 DESTS = {"F": ("M", "N"), "C": ("M", "N"), "A": ("C", "M"), "S": ("M", "N", "TOP"), "B": ("S", "N")}
 NAMES = {"M": "m", "N": "n", "F": "f", "C": "C", "G": "g", "A": "a", "S": "sub", "H": "h", "B": "b", "T": "sub", "TB": "b",
-         "F2": "f", "K": "K", "KA": "a2", "SA": "sub", "S2": "sub", "S3": "sub", "S3B": "b", "H2": "h2"}
-ALIASES = ("A", "B", "TB", "KA", "SA", "S3B")
+         "F2": "f", "K": "K", "KA": "a2", "SA": "sub", "S2": "sub", "S3": "sub", "S3B": "b", "H2": "h2", "AC": "ac", "D": "D", "Z": "z"}
+ALIASES = ("A", "B", "TB", "KA", "SA", "S3B", "AC")
 
 
 def _ops():
@@ -60,6 +60,12 @@ def _ops():
     ops.append(("alias-over-sub",))
     ops.append(("new-sub",))
     ops.append(("new-stub",))
+    for kf in ("on-alias", "dotted", "tuple"):
+        ops.append(("del-via-alias", "del_member", kf))
+        ops.append(("del-via-alias", "delitem", kf))
+        ops.append(("set-via-alias", "set_member", kf))
+        ops.append(("set-via-alias", "setitem", kf))
+    ops.append(("del-inherited",))
     return ops
 
 
@@ -172,6 +178,13 @@ class World:
         self.attach("H", "S")
         self.new("B", "alias", target="m.f")
         self.attach("B", "S")
+        # an alias to the class and a class inheriting from it, both in n: members of C are also visible as n.ac.<x> and n.D.<x>
+        self.new("AC", "alias", target="m.C")
+        self.attach("AC", "N")
+        self.objs["D"] = self.g.Class("D", bases=["m.C"])
+        self.where["D"] = None
+        self.members["D"] = {}
+        self.attach("D", "N")
         if variant == "stubs":
             self.new("T", "module", file="sub.py")
             self.attach("T", "TOP")
@@ -341,6 +354,43 @@ def apply(w: World, op):
         w.gone.add("S")
         w.m_put("S2", "M")
         return _outcome(exc), "ok", True, viols
+    if kind in ("del-via-alias", "set-via-alias"):
+        _, api, kf = op
+        # the alias n.ac must lead to the class C (already resolved to it, or resolvable now)
+        if w.m_path("AC") is None or w.m_path("C") is None or not (w.target["AC"] == "C" or (w.target["AC"] is None and w.m_at("m.C") == "C")):
+            return None, None, False, []
+        name = "g" if kind == "del-via-alias" else "z"
+        if kind == "del-via-alias" and w.members["C"].get("g") != "G":
+            return None, None, False, []
+        if kind == "set-via-alias" and "Z" in w.objs:
+            return None, None, False, []
+        recv, key = (w.objs["AC"], name) if kf == "on-alias" else (w.coll, f"n.ac.{name}" if kf == "dotted" else ("n", "ac", name))
+        if kind == "del-via-alias":
+            exc = _call((lambda: recv.del_member(key)) if api == "del_member" else (lambda: recv.__delitem__(key)))
+            del w.members["C"]["g"]
+            w.where["G"] = None
+        else:
+            w.new("Z", "function")
+            exc = _call((lambda: recv.set_member(key, w.objs["Z"])) if api == "set_member" else (lambda: recv.__setitem__(key, w.objs["Z"])))
+            w.m_put("Z", "C")
+        w.target["AC"] = "C"
+        return _outcome(exc), "ok", True, viols
+    if kind == "del-inherited":
+        # the consumer API: `del D["g"]` where g is inherited from C ("looked up in both declared members and inherited ones")
+        if w.m_path("D") is None or w.m_at("m.C") != "C" or w.members["C"].get("g") != "G":
+            return None, None, False, []
+        exc = _call(lambda: w.objs["D"].__delitem__("g"))
+        still = _call(lambda: w.objs["D"]["g"]) is None
+        if exc is None and still:
+            viols.append(("M6-delete-lost/inherited", "del D['g'] (g inherited from m.C) returned normally, D['g'] still returns the member", None))
+        # (computing the inherited members reads the members of C, which resolves the aliases among them if it can)
+        for a, holder in (("A", "C"),):
+            if w.where.get(a) == holder and w.target[a] is None and w.objs[a]._target is not None and _lab(w, w.objs[a]._target) == w.m_at("m.f"):
+                w.target[a] = w.m_at("m.f")
+        if exc is None and "g" not in w.objs["C"].members:
+            del w.members["C"]["g"]  # deleted where it is declared: one way of making it go away
+            w.where["G"] = None
+        return "ok", "ok", True, viols
     if kind == "new-stub":
         tl = w.m_at("m.f")
         if w.variant != "plain" or "S3" in w.objs or w.members["M"].get("sub") != "S" or w.m_path("M") is None or tl is None or tl in ALIASES:
